@@ -4,6 +4,7 @@ From VQ Require Import Model.Inventory.
 From VQ.Gen Require Import inv_vq.
 Import ListNotations.
 Open Scope string_scope.
-Lemma pin_inv_vq : inv_vq =
+Definition pinned_inv_vq : list (string * kind * bool) :=
   [("zero", Buffer, false)].
+Lemma pin_inv_vq : inv_vq = pinned_inv_vq.
 Proof. reflexivity. Qed.
